@@ -704,6 +704,110 @@ func (rc *rangeCtx) sortAfter(name string) string {
 	return found
 }
 
+// tieFields: name is sorted with sort.Slice after the range, its element type has identifying fields (the table is from the
+// property statements), and the comparator looks at none of them: the fields it does compare, else "".
+func (rc *rangeCtx) tieFields(name string, sp *Spec) string {
+	out := ""
+	ast.Inspect(rc.fnDecl, func(n ast.Node) bool {
+		call, ok := n.(*ast.CallExpr)
+		if !ok || call.Pos() < rc.rs.End() || len(call.Args) != 2 || out != "" {
+			return true
+		}
+		full := funcFullName(rc.calleeOf(call))
+		if (full != "sort.Slice" && full != "sort.SliceStable") || exprStr(call.Args[0]) != name {
+			return true
+		}
+		lit, ok := call.Args[1].(*ast.FuncLit)
+		if !ok {
+			return true
+		}
+		tv, ok := rc.info.Types[call.Args[0]]
+		if !ok {
+			return true
+		}
+		sl, ok := tv.Type.Underlying().(*types.Slice)
+		if !ok {
+			return true
+		}
+		pk, tn := namedTypeName(sl.Elem())
+		ident := sp.Tables.IdentityFields[rel(pk)+"."+tn]
+		if len(ident) == 0 {
+			return true
+		}
+		compared := map[string]bool{}
+		// (an identity of "<key>" says that only the map key tells two elements apart: no comparator over the values is total)
+		ast.Inspect(lit.Body, func(m ast.Node) bool {
+			se, ok := m.(*ast.SelectorExpr)
+			if !ok {
+				return true
+			}
+			// first-level field of an element: name[i].F…
+			x := se
+			for {
+				inner, ok := x.X.(*ast.SelectorExpr)
+				if !ok {
+					break
+				}
+				x = inner
+			}
+			if ix, ok := x.X.(*ast.IndexExpr); ok && exprStr(ix.X) == name {
+				compared[x.Sel.Name] = true
+			}
+			return true
+		})
+		for _, f := range ident {
+			if compared[f] {
+				return true
+			}
+		}
+		var cs []string
+		for f := range compared {
+			cs = append(cs, f)
+		}
+		sort.Strings(cs)
+		out = strings.Join(cs, ", ")
+		if out == "" {
+			out = "a key that does not identify the element"
+		}
+		return true
+	})
+	return out
+}
+
+// storedIntoSink: after the range, name is assigned to a field that the table lists as order-sensitive further on.
+func (rc *rangeCtx) storedIntoSink(name string, sp *Spec) string {
+	out := ""
+	ast.Inspect(rc.fnDecl, func(n ast.Node) bool {
+		as, ok := n.(*ast.AssignStmt)
+		if !ok || as.Pos() < rc.rs.End() || out != "" || len(as.Lhs) != len(as.Rhs) {
+			return true
+		}
+		for i, r := range as.Rhs {
+			if exprStr(r) != name {
+				continue
+			}
+			se, ok := as.Lhs[i].(*ast.SelectorExpr)
+			if !ok {
+				continue
+			}
+			tv, ok := rc.info.Types[se.X]
+			if !ok {
+				continue
+			}
+			t := tv.Type
+			if pt, ok := t.Underlying().(*types.Pointer); ok {
+				t = pt.Elem()
+			}
+			pk, tn := namedTypeName(t)
+			if why, ok := sp.Tables.OrderSinks[rel(pk)+"."+tn+"."+se.Sel.Name]; ok {
+				out = "it is kept in " + tn + "." + se.Sel.Name + " (" + rc.p.Pos(as.Pos()) + "): " + why
+			}
+		}
+		return true
+	})
+	return out
+}
+
 func sortsParam0(fn *ssa.Function) bool {
 	if len(fn.Params) == 0 {
 		return false
@@ -826,6 +930,15 @@ func runE4(p *Program, sp *Spec, c *Collector) {
 						continue
 					}
 					if s := rc.sortAfter(name); s != "" {
+						// a sort that leaves ties keeps the map's order inside each tie group: harmless for a report read as a
+						// collection, not for a consumer that cuts the list or keeps a single element
+						if tie := rc.tieFields(name, sp); tie != "" {
+							if why := rc.orderedConsumer(name); why != "" {
+								rc.bad = append(rc.bad, name+" is sorted by "+tie+" only, so elements that tie stay in map order, and "+why)
+							} else if why := rc.storedIntoSink(name, sp); why != "" {
+								rc.bad = append(rc.bad, name+" is sorted by "+tie+" only, so elements that tie stay in map order, and "+why)
+							}
+						}
 						colls = append(colls, name+" collected then sorted by "+s)
 					} else {
 						if why := rc.orderedConsumer(name); why != "" {
@@ -917,21 +1030,74 @@ type OrderSpec struct {
 func comparatorOf(fn *ssa.Function) (string, string, bool) {
 	// single return of a comparison
 	var ret *ssa.Return
+	nret := 0
 	for _, b := range fn.Blocks {
 		for _, in := range b.Instrs {
 			if r, ok := in.(*ssa.Return); ok {
-				if ret != nil {
-					return "", "", false
-				}
+				nret++
 				ret = r
 			}
 		}
 	}
+	if nret > 1 && len(fn.Params) == 2 && len(fn.Blocks) > 0 {
+		// a primary key with a tie-break: `if a.K != b.K { return a.K < b.K }; return <tie-break>` (or the == form with the
+		// branches the other way round): the order promised is the primary key's
+		entry := fn.Blocks[0]
+		if ifs, ok := entry.Instrs[len(entry.Instrs)-1].(*ssa.If); ok && len(entry.Succs) == 2 {
+			differ := -1
+			key := ""
+			cond := ifs.Cond
+			neg := false
+			if u, ok := cond.(*ssa.UnOp); ok && u.Op == token.NOT {
+				cond, neg = u.X, true
+			}
+			switch x := cond.(type) {
+			case *ssa.BinOp:
+				l, li := sideTerm(x.X, fn)
+				r, ri := sideTerm(x.Y, fn)
+				if l != "" && l == r && li != ri && li >= 0 && ri >= 0 {
+					key = l
+					if (x.Op == token.NEQ) != neg {
+						differ = 0
+					} else if (x.Op == token.EQL) != neg {
+						differ = 1
+					}
+				}
+			case *ssa.Call:
+				if callee := x.Call.StaticCallee(); callee != nil && fullFuncName(callee) == "time.(Time).Equal" && len(x.Call.Args) == 2 {
+					l, li := sideTerm(x.Call.Args[0], fn)
+					r, ri := sideTerm(x.Call.Args[1], fn)
+					if l != "" && l == r && li != ri {
+						key = l
+						if neg {
+							differ = 0
+						} else {
+							differ = 1
+						}
+					}
+				}
+			}
+			if differ >= 0 {
+				b := entry.Succs[differ]
+				if r, ok := b.Instrs[len(b.Instrs)-1].(*ssa.Return); ok && len(r.Results) == 1 {
+					if k, dir, ok := comparisonOf(r.Results[0], fn); ok && k == key {
+						return k, dir, true
+					}
+				}
+			}
+		}
+		return "", "", false
+	}
 	if ret == nil || len(ret.Results) != 1 || len(fn.Params) != 2 {
 		return "", "", false
 	}
+	return comparisonOf(ret.Results[0], fn)
+}
+
+// comparisonOf: v is `a.K < b.K` (or >, <=, >=, Before, After) over the two elements: the key and the direction.
+func comparisonOf(v ssa.Value, fn *ssa.Function) (string, string, bool) {
 	side := func(v ssa.Value) (string, int) { return sideTerm(v, fn) }
-	switch x := ret.Results[0].(type) {
+	switch x := v.(type) {
 	case *ssa.BinOp:
 		l, li := side(x.X)
 		r, ri := side(x.Y)
@@ -1619,6 +1785,9 @@ func (p *Program) firstMatchThrough(fn *ssa.Function, x ssa.Value, depth int, se
 	if w := p.lastWinsOver(fn, x); w != "" {
 		return w
 	}
+	if w := p.cutOver(fn, x); w != "" {
+		return w
+	}
 	refs := x.Referrers()
 	if refs == nil {
 		return ""
@@ -1665,6 +1834,71 @@ func (p *Program) firstMatchThrough(fn *ssa.Function, x ssa.Value, depth int, se
 					if a == x && i+off < len(callee.Params) {
 						if w := p.firstMatchThrough(callee, callee.Params[i+off], depth+1, seen); w != "" {
 							return w
+						}
+					}
+				}
+			}
+		}
+	}
+	return ""
+}
+
+// cutOver: fn keeps a prefix of x (x[:n]): which elements are kept follows their order.
+func (p *Program) cutOver(fn *ssa.Function, x ssa.Value) string {
+	refs := x.Referrers()
+	if refs == nil {
+		return ""
+	}
+	for _, r := range *refs {
+		if sl, ok := r.(*ssa.Slice); ok && sl.X == x && sl.High != nil && sl.Parent() == fn {
+			if c, isC := sl.High.(*ssa.Const); isC && c.Value == nil {
+				continue
+			}
+			return "only its first elements are kept (" + p.InstrPos(sl) + "): which ones they are follows the order"
+		}
+	}
+	// a list built element by element from x, in x's order, and then cut
+	for _, loop := range naturalLoops(fn) {
+		walksX := false
+		for b := range loop {
+			for _, in := range b.Instrs {
+				switch e := in.(type) {
+				case *ssa.IndexAddr:
+					walksX = walksX || e.X == x
+				case *ssa.Index:
+					walksX = walksX || e.X == x
+				}
+			}
+		}
+		if !walksX {
+			continue
+		}
+		for b := range loop {
+			for _, in := range b.Instrs {
+				call, ok := in.(*ssa.Call)
+				if !ok {
+					continue
+				}
+				if bi, ok := call.Call.Value.(*ssa.Builtin); !ok || bi.Name() != "append" {
+					continue
+				}
+				seen := map[ssa.Value]bool{}
+				work := []ssa.Value{call}
+				for len(work) > 0 {
+					v := work[len(work)-1]
+					work = work[:len(work)-1]
+					if seen[v] || v.Referrers() == nil {
+						continue
+					}
+					seen[v] = true
+					for _, r := range *v.Referrers() {
+						switch u := r.(type) {
+						case *ssa.Phi:
+							work = append(work, u)
+						case *ssa.Slice:
+							if u.X == v && u.High != nil {
+								return "a list built from it element by element is cut to its first elements (" + p.InstrPos(u) + "): which ones they are follows the order"
+							}
 						}
 					}
 				}
